@@ -23,6 +23,7 @@ func (vc *FuncVC) dispatch(s *State, cl *callee, ord int, site ssa.Instruction, 
 		return []Term{vc.freshConst("resolve_err", "Iface")}
 	}
 	vc.assumedUsed["derived contract of TypeResolver.Resolve (premises: C14 Resolve/NewTypeResolver contracts, callbacks() postcondition)"] = true
+	preState := s.clone()
 	ctx := cl.args[1]
 	act := cl.args[2]
 	choice := vc.freshConst("dispatch_choice", "Int")
@@ -95,5 +96,13 @@ func (vc *FuncVC) dispatch(s *State, cl *callee, ord int, site ssa.Instruction, 
 	s.pc = m.pc
 	r.GoT = errT
 	_ = strings.TrimSpace
+	// caller-side clauses attached to the Resolve site (ghost updates, assume!post)
+	siteKey := fmt.Sprintf("call %s#%d", cl.name, ord)
+	if vc.cur.c != nil {
+		if ss := vc.cur.c.Sites[siteKey]; ss != nil {
+			vc.sitesUsed[siteKey] = true
+			vc.siteClauses(s, preState, ss, siteKey, cl, []Term{r}, pos)
+		}
+	}
 	return []Term{r}
 }
